@@ -156,6 +156,11 @@ func (r *reconcile) updateGlobalCuntFlowControls() {
 		if localConfig.Strategy != proxyv1alpha1.GlobalCountLimit {
 			continue
 		}
+		if !EnableGlobalFlowControl(localConfig) {
+			// no global limit is configured, there is nothing to build a remote
+			// limiter from, the schema is served by the local limiter
+			continue
+		}
 
 		itemConfig := proxyv1alpha1.RateLimitItemConfiguration{
 			Name:     name,
